@@ -187,7 +187,16 @@ def run_history(method, kname, dim, two, ops, periodic=False):
         if op == 'points':
             vt += 1
             tg = make_targets(dim, vt, periodic)
-            ip.set_interpolation_points(x=tg[0], y=tg[1], z=tg[2])
+            nt_ = len(tg[0])
+            fac = [f for f in (2, 3, 5) if nt_ % f == 0 and nt_ // f >= 2]
+            if vt % 2 == 1 and fac:
+                # the same points as Fortran-ordered (not C-contiguous) 2-D
+                # arrays: results are reported in the logical order
+                sh = (fac[0], nt_ // fac[0])
+                nc = [np.asfortranarray(a.reshape(sh)) for a in tg]
+                ip.set_interpolation_points(x=nc[0], y=nc[1], z=nc[2])
+            else:
+                ip.set_interpolation_points(x=tg[0], y=tg[1], z=tg[2])
         elif op == 'arrays':
             vs += 1
             srcs = make_sources(dim, vs, two)
@@ -200,6 +209,11 @@ def run_history(method, kname, dim, two, ops, periodic=False):
                     y = pa.get('y', only_real_particles=False)
                     y -= 0.0625
             ip.update()
+        elif op == 'vals':
+            # the interpolated property is overwritten in place; no update()
+            for pa in srcs:
+                f = pa.get('f', only_real_particles=False)
+                f[:] = 3.0 - 1.75 * f
         elif op == 'grow':
             # smoothing lengths grown in place, then update(): neighbours
             # must be searched with the new, larger radius
@@ -215,8 +229,8 @@ def run_history(method, kname, dim, two, ops, periodic=False):
                 field = lambda pa: pa.get('f', only_real_particles=False)\
                     .copy()
                 got = ip.interpolate('f') if method != 'order1' else \
-                    np.column_stack([ip.interpolate('f', comp=c)
-                                     for c in range(4)])
+                    np.column_stack([np.asarray(ip.interpolate(
+                        'f', comp=c)).ravel() for c in range(4)])
             elif fieldname == 'const':
                 for pa in srcs:
                     if 'cst' not in pa.properties:
@@ -224,8 +238,8 @@ def run_history(method, kname, dim, two, ops, periodic=False):
                     pa.get('cst', only_real_particles=False)[:] = 4.25
                 field = lambda pa: np.full(pa.get_number_of_particles(), 4.25)
                 got = ip.interpolate('cst') if method != 'order1' else \
-                    np.column_stack([ip.interpolate('cst', comp=c)
-                                     for c in range(4)])
+                    np.column_stack([np.asarray(ip.interpolate(
+                        'cst', comp=c)).ravel() for c in range(4)])
             else:
                 if method != 'order1':
                     continue
@@ -238,8 +252,8 @@ def run_history(method, kname, dim, two, ops, periodic=False):
                         coef[2] * g('z')
                 field = lambda pa: pa.get('lin', only_real_particles=False)\
                     .copy()
-                got = np.column_stack([ip.interpolate('lin', comp=c)
-                                       for c in range(4)])
+                got = np.column_stack([np.asarray(ip.interpolate(
+                    'lin', comp=c)).ravel() for c in range(4)])
             nev += 1
             want, info = reference(method, kernel, dim, srcs, tg, th, field)
             got = np.asarray(got, dtype=float).reshape(want.shape)
@@ -297,8 +311,8 @@ def _job(args):
     nev = 0
     nh = 0
     for d in range(0, depth + 1):
-        alphabet = ('points', 'arrays', 'move') if periodic else \
-            ('points', 'arrays', 'move', 'grow')
+        alphabet = ('points', 'arrays', 'move', 'vals') if periodic else \
+            ('points', 'arrays', 'move', 'grow', 'vals')
         for ops in itertools.product(alphabet, repeat=d):
             try:
                 pr, n = run_history(method, kname, dim, two, ops, periodic)
